@@ -113,6 +113,8 @@ type frame struct {
 	phitemps         []value // temporaries for parallel phi assignment
 	callpos          token.Pos
 	cur              ssa.Instruction // instruction being executed (for the modelled runtime.Callers)
+	inDefer          bool            // a deferred call of this frame is running
+	unwinding        bool            // ... because a panic reached this frame (stays set after recover(), as the runtime's frames do)
 }
 
 func (fr *frame) get(key ssa.Value) value {
@@ -166,6 +168,9 @@ func (fr *frame) runDefer(d *deferred) {
 			fr.panic = recover()
 		}
 	}()
+	was := fr.inDefer
+	fr.inDefer = true
+	defer func() { fr.inDefer = was }()
 	call(fr.i, fr, d.instr.Pos(), d.fn, d.args)
 	ok = true
 }
@@ -187,6 +192,7 @@ func (fr *frame) runDefers() {
 	}
 	fr.defers = nil
 	if fr.panicking {
+		noteUnwound(fr)
 		panic(fr.panic) // new panic, or still panicking
 	}
 }
@@ -555,10 +561,14 @@ func runFrame(fr *frame) {
 		}
 		fr.panicking = true
 		fr.panic = r
+		startUnwind(fr)
 		if fr.i.mode&EnableTracing != 0 {
 			fmt.Fprintf(os.Stderr, "Panicking: %T %v.\n", fr.panic, fr.panic)
 		}
+		fr.unwinding = true
 		fr.runDefers()
+		fr.unwinding = false
+		clearUnwound(fr) // recovered
 		fr.block = fr.fn.Recover
 	}()
 
@@ -578,7 +588,7 @@ func runFrame(fr *frame) {
 			}
 			if p := fr.i.p; p != nil {
 				p.steps++
-				if p.steps > p.opts.MaxSteps {
+				if p.steps > p.opts.MaxSteps && p.steps > p.stepBudget {
 					panic(pathEnd{"budget"})
 				}
 			}
